@@ -20,7 +20,7 @@ RULE = ('corpus of (program, query, pre-existing bindings): A body trees with <=
         'After every ending EVERY live engine variable (weak set hook) must be in the binding state it had before the '
         'generator was created (internal ones unbound), the answers seen must be a prefix of RefProlog\'s, the thrown '
         'object must come back unchanged, and a second complete run on the same engine and variables must give the full '
-        'reference sequence. evaluations = endings explored; states = distinct (answer-sequence, ending) outcomes; '
+        'reference sequence. G bind/undo histories: every sequence of <= D operations "unify one of 10 equations" / "undo the most recent unification" with all variables looked up after every operation; after every undo every variable must be in exactly the state (including the identity of the variables its value refers to) it had before the matching unification. evaluations = endings explored; states = distinct (answer-sequence, ending) outcomes; '
         'non-trivial = abandoned while bindings were active (k >= 1)')
 ASSUMPTIONS = ['YLDPROLOG_VERIF=1 hook: engine.Variable registers itself in a weak set',
                'dropping a generator is followed by gc.collect() before inspection (finalisation of a dropped generator '
@@ -515,12 +515,17 @@ NSH = 32
 
 def plan(tier):
     kinds = ['A', 'B', 'C', 'D', 'E', 'F']
-    return [(kind, k, NSH, tier) for kind in kinds for k in range(NSH)]
+    hd = 5 if tier == 'quick' else 6
+    return [(kind, k, NSH, tier) for kind in kinds for k in range(NSH)] + [('hist', hd, k, 2 * NSH) for k in range(2 * NSH)]
 
 
 def run_shard(spec):
-    kind, k, n, tier = spec
     acc = Acc()
+    if spec[0] == 'hist':
+        from .c15 import run_histories
+        run_histories(spec, acc, 'restore', 'history:state-not-')
+        return acc
+    kind, k, n, tier = spec
     if kind == 'A':
         for idx, t in corpus_trees(1 if tier == 'quick' else 2):
             if idx % n != k:
@@ -574,6 +579,10 @@ def replay(case):
     # endings are cheap: re-run the whole shard family that contains the label is not
     # possible from the label alone, so the replay re-executes the recorded scenario kinds
     acc = Acc()
+    if 'history' in case:
+        from .. import bindhist as bh
+        r = bh.run_history(tuple(case['history']))
+        return [(r[1], r[2])] if r[0] == 'violation' else []
     if 'unify' in case:
         run_unify_pair(acc, ('D', 0, 0), _t(case['unify'][0]), _t(case['unify'][1]))
     elif 'tree' in case:
